@@ -39,6 +39,21 @@ class Unsupported(Exception):
     pass
 
 
+def exc_covered(cls, handler_stack):
+    """is an exception of class `cls` caught by one of the enclosing try statements (tuple of tuples of handler class names)?"""
+    import builtins
+    cls = cls.split(".")[-1].split("(")[0]
+    for names in handler_stack:
+        for h in names:
+            h = h.split(".")[-1]
+            if h in ("Exception", "BaseException") or h == cls:
+                return True
+            a, b = getattr(builtins, cls, None), getattr(builtins, h, None)
+            if isinstance(a, type) and isinstance(b, type) and issubclass(a, b):
+                return True
+    return False
+
+
 class NeedFork(Exception):
     """a call in expression position whose callee has several paths: the enclosing statement executes it first and re-evaluates"""
 
@@ -81,7 +96,8 @@ def consistent_intervals(guards):
 
 
 class Engine:
-    def __init__(self, model: Model, inline_depth=4, split_bool=True, keep_props=(), inline_subobjects=False, no_inline=(), split_ifexp=False, fork_props=False, inline_async=False):
+    def __init__(self, model: Model, inline_depth=4, split_bool=True, keep_props=(), inline_subobjects=False, no_inline=(), split_ifexp=False, fork_props=False, inline_async=False, track_exc=False):
+        self.track_exc = track_exc  # record potential exception sites (index, decode, int/float of text, next, None misuse) as ('xsite', ..) effects
         self.inline_async = inline_async  # `await self.helper()` of the root object is executed inline (its own awaits havoc the fields)
         self.fork_props = fork_props  # properties with several paths are executed (forked) instead of staying opaque ('prop', ..) atoms
         self.split_ifexp = split_ifexp  # `x = a if c else b` / `return a if c else b` become two paths instead of an ('ite',..) value
@@ -94,6 +110,38 @@ class Engine:
         self.loops = []  # recorded loops: (fn, node, frame)
         self.loop_entries = []  # (fn, node, frame, path state on reaching the loop)
         self.site = itertools.count()
+
+    def ctor_escapes(self, ck):
+        """exception classes that can leave the constructor of repository class ck (its own handlers applied): [(cls, what, line, fn qual, guards)]"""
+        memo = self.__dict__.setdefault("_ctor_memo", {})
+        if ck not in memo:
+            memo[ck] = []
+            init = self.M.find_method(ck, "__init__")
+            if init is not None:
+                E2 = Engine(self.M, inline_depth=self.depth, keep_props=self.keep_props, inline_subobjects=self.inline_sub, split_ifexp=self.split_ifexp, fork_props=self.fork_props, track_exc=True)
+                try:
+                    ps = E2.run(init)
+                except (Unsupported, NeedFork):
+                    memo[ck] = [("Exception", "constructor outside the analysed subset", init.node.lineno, init.qual, ())]
+                    return memo[ck]
+                seen = set()
+                for q in ps:
+                    for e in q.effects:
+                        if e[0] == "xsite" and not exc_covered(e[1], e[5]):
+                            k = (e[1], e[2], e[4])
+                            if k not in seen:
+                                seen.add(k)
+                                memo[ck].append((e[1], e[2], e[4], e[7], tuple(q.guards[:e[6]]), e[3]))
+                        if e[0] == "raise" and len(e) > 3 and not exc_covered(str(e[1]), e[3]):
+                            k = (e[1], "raise", e[2])
+                            if k not in seen:
+                                seen.add(k)
+                                memo[ck].append((str(e[1]).split("(")[0], "raise", e[2], e[4], tuple(q.guards), None))
+        return memo[ck]
+
+    def xsite(self, p, cls, what, detail, lineno, fr):
+        if self.track_exc:
+            p.effects.append(("xsite", cls, what, detail, lineno, p.store.get(("handlers",), ()), len(p.guards), fr["fn"].qual))
 
     # ------------------------------------------------------------ expression evaluation
     def ev(self, e, p: Path, fr):
@@ -132,6 +180,8 @@ class Engine:
             return ("un", type(e.op).__name__, v)
         if isinstance(e, ast.BinOp):
             a, b = self.ev(e.left, p, fr), self.ev(e.right, p, fr)
+            if self.track_exc and (a == ("c", None) or b == ("c", None)):
+                self.xsite(p, "TypeError", "none-arithmetic", ("op", type(e.op).__name__, a, b), e.lineno, fr)
             return ("op", type(e.op).__name__, a, b)
         if isinstance(e, ast.BoolOp):
             vals = tuple(self.ev(v, p, fr) for v in e.values)
@@ -146,14 +196,23 @@ class Engine:
                     left = right
                 return ("bool", "and", tuple(vals))
             a, b = self.ev(e.left, p, fr), self.ev(e.comparators[0], p, fr)
+            if self.track_exc and isinstance(e.ops[0], (ast.Lt, ast.LtE, ast.Gt, ast.GtE)) and (a == ("c", None) or b == ("c", None)):
+                self.xsite(p, "TypeError", "none-ordering", ("cmp", type(e.ops[0]).__name__, a, b), e.lineno, fr)
             return self.cmp(type(e.ops[0]).__name__, a, b)
         if isinstance(e, ast.Subscript):
             a = self.ev(e.value, p, fr)
+            if self.track_exc and a == ("c", None):
+                self.xsite(p, "TypeError", "none-subscript", a, e.lineno, fr)
             if isinstance(e.slice, ast.Slice):
                 lo = self.ev(e.slice.lower, p, fr) if e.slice.lower else None
                 hi = self.ev(e.slice.upper, p, fr) if e.slice.upper else None
+                if self.track_exc and (lo == ("c", None) and e.slice.lower is not None or hi == ("c", None) and e.slice.upper is not None):
+                    self.xsite(p, "TypeError", "none-slice-bound", ("slice", a, lo, hi), e.lineno, fr)
                 return ("slice", a, lo, hi)
-            return ("sub", a, self.ev(e.slice, p, fr))
+            idx = self.ev(e.slice, p, fr)
+            if self.track_exc and isinstance(e.ctx, ast.Load):
+                self.xsite(p, "IndexError", "index", ("sub", a, idx), e.lineno, fr)
+            return ("sub", a, idx)
         if isinstance(e, ast.IfExp):
             return ("ite", self.ev(e.test, p, fr), self.ev(e.body, p, fr), self.ev(e.orelse, p, fr))
         if isinstance(e, ast.Call):
@@ -373,6 +432,31 @@ class Engine:
             return ast.unparse(callee.node.returns) == "bool"
         return False
 
+    def _call_xsites(self, e, args, p, fr):
+        f = e.func
+        src = ast.unparse(f)
+        if src.startswith(LOG_PREFIX):
+            return
+        pos = [a for a in args if not (isinstance(a, tuple) and a and a[0] == "kw")]
+        kws = {a[1]: a[2] for a in args if isinstance(a, tuple) and a and a[0] == "kw"}
+        if isinstance(f, ast.Attribute) and f.attr == "decode":
+            errs = kws.get("errors", pos[1] if len(pos) > 1 else None)
+            enc = pos[0] if pos else kws.get("encoding", ("c", "utf-8"))
+            lenient = errs is not None and errs[0] == "c" and errs[1] in ("replace", "ignore", "backslashreplace", "surrogateescape")
+            latin = enc[0] == "c" and str(enc[1]).lower().replace("-", "").replace("_", "") in ("latin1", "iso88591")
+            if not lenient and not latin:
+                self.xsite(p, "UnicodeDecodeError", "decode", self.ev(f.value, p.clone(), fr), e.lineno, fr)
+        if isinstance(f, ast.Attribute) and self.ev(f.value, p.clone(), fr) == ("c", None):
+            self.xsite(p, "AttributeError", "none-attribute", ("c", None), e.lineno, fr)
+        if isinstance(f, ast.Name) and f.id == "int" and (len(pos) > 1 or "base" in kws):
+            self.xsite(p, "ValueError", "int()", pos[0] if pos else None, e.lineno, fr)
+        if isinstance(f, ast.Name) and f.id == "float" and pos and pos[0][0] != "c":
+            self.xsite(p, "ValueError", "float()", pos[0], e.lineno, fr)
+        if isinstance(f, ast.Name) and f.id == "next" and len(pos) == 1:
+            self.xsite(p, "StopIteration", "next()", pos[0], e.lineno, fr)
+        if isinstance(f, ast.Name) and f.id == "len" and pos and pos[0] == ("c", None):
+            self.xsite(p, "TypeError", "none-len", pos[0], e.lineno, fr)
+
     def fork_or_memo(self, e, callee, p, fr):
         key = ("memo", id(e))
         if key in p.store:
@@ -449,6 +533,8 @@ class Engine:
         M = self.M
         f = e.func
         args = [self.ev(a, p, fr) for a in e.args] + [("kw", k.arg, self.ev(k.value, p, fr)) for k in e.keywords if k.arg]
+        if self.track_exc:
+            self._call_xsites(e, args, p, fr)
         if isinstance(f, ast.Name):
             if f.id == "cast" and len(args) == 2:
                 return args[1]
@@ -465,6 +551,9 @@ class Engine:
                 return ("len", args[0], self.version(args[0], p))
             ck = M.lookup_class_name(fr["fn"].mod, f.id)
             if ck:
+                if self.track_exc:
+                    for esc in self.ctor_escapes(ck):
+                        self.xsite(p, esc[0], "ctor:" + esc[1], ("ctor", ck, esc[2], esc[3], esc[4], esc[5], tuple(args)), e.lineno, fr)
                 return ("new", ck, e.lineno, tuple(args))
             if f.id in ("tuple", "list") and len(args) == 1 and args[0][0] == "tuple":
                 return args[0]
@@ -670,7 +759,7 @@ class Engine:
             p.status = "return"
             return [p]
         if isinstance(s, ast.Raise):
-            p.effects.append(("raise", ast.unparse(s.exc) if s.exc else "reraise", s.lineno))
+            p.effects.append(("raise", ast.unparse(s.exc) if s.exc else "reraise", s.lineno, p.store.get(("handlers",), ()), fr["fn"].qual))
             p.status = "raise"
             return [p]
         if isinstance(s, ast.Pass):
@@ -704,7 +793,7 @@ class Engine:
             t, f = self.cond(s.test, p, fr)
             for q in f:
                 if q.status == "run":
-                    q.effects.append(("raise", "AssertionError", s.lineno))
+                    q.effects.append(("raise", "AssertionError", s.lineno, q.store.get(("handlers",), ()), fr["fn"].qual))
                     q.status = "raise"
             return t + f
         if isinstance(s, ast.If):
@@ -735,7 +824,12 @@ class Engine:
         if isinstance(s, ast.Try):
             p.effects.append(("try", s.lineno))
             entry = p.clone()
+            hnames = tuple(n_ for h in s.handlers for n_ in (["BaseException"] if h.type is None else [ast.unparse(x) for x in (h.type.elts if isinstance(h.type, ast.Tuple) else [h.type])]))
+            outer = p.store.get(("handlers",), ())
+            p.store[("handlers",)] = outer + (hnames,)
             body = self.block(s.body, [p], fr)
+            for q in body:
+                q.store[("handlers",)] = outer
             out = []
             for q in body:
                 out.append(q)
@@ -769,9 +863,14 @@ class Engine:
         f = e.func
         src = ast.unparse(f)
         if src.startswith(LOG_PREFIX):
+            if self.track_exc:
+                for a in e.args[1:]:
+                    self.ev(a, p, fr)  # logging arguments are evaluated code: their exception sites count
             p.effects.append(("log", tuple(ast.unparse(a) for a in e.args[1:]), e.lineno))
             return [(p, ("c", None))]
         args = [self.ev(a, p, fr) for a in e.args] + [("kw", k.arg, self.ev(k.value, p, fr)) for k in e.keywords if k.arg]
+        if self.track_exc:
+            self._call_xsites(e, args, p, fr)
         recv = None
         callee = None
         if isinstance(f, ast.Attribute):
@@ -790,6 +889,9 @@ class Engine:
         elif isinstance(f, ast.Name):
             ck = M.lookup_class_name(fr["fn"].mod, f.id)
             if ck:
+                if self.track_exc:
+                    for esc in self.ctor_escapes(ck):
+                        self.xsite(p, esc[0], "ctor:" + esc[1], ("ctor", ck, esc[2], esc[3], esc[4], esc[5], tuple(args)), e.lineno, fr)
                 return [(p, ("new", ck, e.lineno, tuple(args)))]
             if f.id in PURE_BUILTINS or f.id in ("tuple", "list"):
                 return [(p, self.call_expr(e, p, fr))]
@@ -916,6 +1018,20 @@ def loop_paths_at(E: Engine, fn: Func, node, path=None, fr=None):
     if isinstance(node, ast.While):
         t, f = E.cond(node.test, p, fr)
         starts = t
+    elif _iter_sentinel(node) is not None and isinstance(node.target, ast.Name):
+        # for x in iter(f, sentinel): the step obtains f() and tests it against the sentinel
+        cs = _iter_sentinel(node)
+        call = ast.copy_location(ast.Call(func=cs[0], args=[], keywords=[]), node.iter)
+        ast.fix_missing_locations(call)
+        starts = []
+        for q, r in E.exec_call(call, p, fr):
+            if q.status != "run":
+                continue
+            E.assign(node.target, r, q, fr, node.lineno)
+            test = ast.copy_location(ast.Compare(left=ast.Name(id=node.target.id, ctx=ast.Load()), ops=[ast.Eq()], comparators=[cs[1]]), node.iter)
+            ast.fix_missing_locations(test)
+            t, f = E.cond(test, q, fr)
+            starts += f
     else:
         it = E.ev(node.iter, p, fr)
         E.assign(node.target, ("iter", it, node.lineno), p, fr, node.lineno)
@@ -1044,3 +1160,48 @@ def _seed_invariant_aliases(E, fn, loop, prologue, p, fr):
         v = next(iter(vs))
         if v[0] == "f0" and v[1] == ("self0",) and len(v) == 3 and v[2] not in rebound:
             p.store[k] = v
+
+
+def explore(E: Engine, fn: Func):
+    """all paths of fn including (recursively) one iteration of every loop reached, each loop body started from the havoc'ed state at its entry"""
+    out = list(E.run(fn))
+    done = set()
+    i = 0
+    while i < len(E.loop_entries):
+        lfn, node, lfr, entry = E.loop_entries[i]
+        i += 1
+        if id(node) in done:
+            continue
+        done.add(id(node))
+        # an arbitrary iteration: nothing is known about the fields (callees may have written them) or about locals assigned in the loop;
+        # locals bound before the loop keep their value unless it reads a field that is rebound somewhere in the class
+        start = Path()
+        in_loop = {n.id for n in ast.walk(node) if isinstance(n, ast.Name) and isinstance(n.ctx, ast.Store)}
+        cls = E.M.classes.get((lfn.mod, lfn.cls)) if lfn.cls else None
+        rebound = set()
+        if cls is not None:
+            for name, m in cls.methods.items():
+                if name == "__init__":
+                    continue
+                for n in ast.walk(m.node):
+                    if isinstance(n, ast.Attribute) and isinstance(n.ctx, (ast.Store, ast.Del)) and isinstance(n.value, ast.Name) and n.value.id == "self":
+                        rebound.add(n.attr)
+
+        def stable(sv):
+            if isinstance(sv, tuple):
+                if sv and sv[0] == "f0" and len(sv) >= 3 and sv[1] == ("self0",) and sv[2] in rebound:
+                    return False
+                if sv and sv[0] in ("havoc", "havoc-field", "mut"):
+                    return False
+                return all(stable(x) for x in sv if isinstance(x, tuple))
+            return True
+        for k, v in entry.store.items():
+            if k[0] == "l" and k[2] not in in_loop and stable(v):
+                start.store[k] = v
+            elif k[0] == "l" and k[2] not in in_loop:
+                start.store[k] = ("havoc", k[2], node.lineno)
+        if ("handlers",) in entry.store:
+            start.store[("handlers",)] = entry.store[("handlers",)]
+        body, _ = loop_paths_at(E, lfn, node, start, lfr)
+        out.extend(body)
+    return out
